@@ -305,7 +305,9 @@ BMP_CALLS = {
 }
 unit({
     'name': 'bmph',
-    'typemap': BMP_TM,
+    'includes': ['wr.h'],
+    'ctor_calls': {'vec_u8': {'fn': 'vec_u8_ctor_fill', 'throws': True}},
+    'typemap': dict(BMP_TM, **{'Stream::Writer': 'Wr'}),
     'enums': [('src/Bitmap/BmpCompression.h', 'BmpCompression'), ('src/Bitmap/BitmapFile.h', 'ScanLineOrientation')],
     'structs': [STR_VIEW] + BMP_STRUCTS,
     'globals': BMP_GLOBALS,
@@ -325,6 +327,8 @@ unit({
         _bf('VerifyIndexedImageForSerialization', static=True),
         _bf('GetScanLineOrientation'), _bf('AbsoluteHeight'),
         {'file': 'src/Bitmap/Color.cpp', 'qual': 'Color::SwapRedAndBlue', 'cls': 'Color', 'cname': 'Color_SwapRedAndBlue'},
+        {'file': 'src/Bitmap/IndexedBmpWriter.cpp', 'qual': 'BitmapFile::WritePixels', 'cls': 'BitmapFile', 'static': True, 'cname': 'BitmapFile_WritePixels', 'members': {},
+         'calls': {'Write': {2: T('Wr_Write'), 1: T('Wr_Write', args=['vec'])}}, 'views': [(r'\(\*pixels\)', 'vec'), (r'padding', 'vec')]},
     ],
 })
 
@@ -345,7 +349,7 @@ unit({
                 ('src/Sprite/PaletteHeader.h', 'PaletteHeader'), 'typedef struct Palette8Bit { Color e[256]; } Palette8Bit;',
                 ('src/Sprite/ImageMeta.h', 'ImageType'), ('src/Sprite/ImageMeta.h', 'ImageMeta'),
                 ('src/Point.h', 'Point16'), ('src/Sprite/Animation.h', 'LayerMetadata'), ('src/Sprite/Animation.h', 'Layer'), VIEW('vec_Layer', 'Layer'), ('src/Sprite/Animation.h', 'Frame'),
-                VIEW('vec_Palette8Bit', 'Palette8Bit'), VIEW('vec_ImageMeta', 'ImageMeta'), 'typedef struct Animation Animation;', VIEW('vec_Animation', 'Animation'),
+                VIEW('vec_Palette8Bit', 'Palette8Bit'), VIEW('vec_ImageMeta', 'ImageMeta'), 'typedef struct Animation { char opaque[8]; } Animation;   /* OPAQUE placeholder (its size is irrelevant) in this unit: animations are only created, moved and counted by abstract callees; no field is read */', VIEW('vec_Animation', 'Animation'),
                 ('src/Sprite/ArtFile.h', 'ArtFile')],
     'globals': BMP_GLOBALS + [
         {'file': 'src/Sprite/TilesetLoader.h', 'qual': 'TagFileSignature', 'ctype': 'Tag', 'cname': 'TagFileSignature'},
@@ -398,6 +402,10 @@ unit({
             calls={'Write': {1: [(r'\(\*frame\)\.layers', T('Wr_Write', args=['vec'])), (r'.*', T('Wr_Write', args=['objtmp']))]}}, views=[(r'\(\*frame\)\.layers', 'vec')]),
         _fn('src/Sprite/ArtReader.cpp', 'ArtFile::ReadFrame', 'ArtFile_ReadFrame', cls='ArtFile', static=True, ret_cxx='Frame',
             calls={'Read': {1: [(r'frame\.layers', T('Rd_Read', args=['vec'])), (r'.*', T('Rd_Read', args=['obj']))], }, 'resize': T('vec_Layer_resize')}, views=[(r'frame\.layers', 'vec')]),
+        _fn('src/Sprite/ArtReader.cpp', 'ArtFile::ReadAnimations', 'ArtFile_ReadAnimations', cls='ArtFile', static=True, typemap={'Animation': 'Animation'},
+            calls={'Read': {1: [(r'.*', T('Rd_ReadU32T', args=['obj']))]}, 'resize': T('vec_Animation_resize'), 'ReadAnimation': T('ArtFile_ReadAnimation_U', recv='none', args=['ref']),
+                   'VerifyCountsMatchHeader': T('ArtFile_VerifyCountsMatchHeader_U', recv='none', args=['ref', None, None, None])},
+            views=[(r'\(\*artFile\)\.animations', 'vec')]),
         _fn('src/Sprite/ArtFile.cpp', 'ArtFile::VerifyImageIndexInBounds', 'ArtFile_VerifyImageIndexInBounds', cls='ArtFile'),
         _fn('src/Sprite/ArtFile.cpp', 'ArtFile::ValidateImageMetadata', 'ArtFile_ValidateImageMetadata', cls='ArtFile', rangefor={'imageMeta': 'ImageMeta'}),
     ],
